@@ -104,12 +104,15 @@ pub proof fn lemma_hist_outer_entries(f: &Fsm, cfg: Seq<u32>, m: Map<u32, Seq<u3
                     assert(hist_entry_src(f, cfg, l.drop_last(), h, prev[h]));
                     let (k, i) = choose|k: int, i: int| 0 <= k < l.drop_last().len() && 0 <= i < st(f, l.drop_last()[k]).history.data@.len() && st(f, st(f, l.drop_last()[k]).history.data@[i]).id == h && prev[h] == hist_record(f, cfg, l.drop_last()[k], #[trigger] st(f, l.drop_last()[k]).history.data@[i]);
                     assert(l[k] == l.drop_last()[k]);
+                    assert(0 <= k < l.len() && 0 <= i < st(f, l[k]).history.data@.len() && st(f, st(f, l[k]).history.data@[i]).id == h && r[h] == hist_record(f, cfg, l[k], st(f, l[k]).history.data@[i]));
                     assert(hist_entry_src(f, cfg, l, h, r[h]));
                 }
             } else {
                 let i = choose|i: int| 0 <= i < hs.len() && st(f, hs[i]).id == h && r[h] == hist_record(f, cfg, s, hs[i]);
                 assert(l[l.len() - 1] == s);
                 assert(st(f, st(f, l[l.len() - 1]).history.data@[i]).id == h);
+                let k = l.len() - 1;
+                assert(0 <= k < l.len() && 0 <= i < st(f, l[k]).history.data@.len() && st(f, st(f, l[k]).history.data@[i]).id == h && r[h] == hist_record(f, cfg, l[k], st(f, l[k]).history.data@[i]));
                 assert(hist_entry_src(f, cfg, l, h, r[h]));
             }
         }
@@ -436,4 +439,50 @@ pub proof fn lemma_without_all_self(s: Seq<u32>, rm: Seq<u32>)
         lemma_without_all_self(s.drop_last(), rm);
         assert(s.contains(s.last())) by { assert(s[s.len() - 1] == s.last()); }
     }
+}
+
+/// every child session started by an <invoke> remembers a valid invoking state
+pub open spec fn kids_ok(f: &Fsm, g: &GlobalData) -> bool {
+    forall|k: String| g.child_sessions@.contains_key(k) ==> match (#[trigger] g.child_sessions@[k]).state_id {
+        Some(s) => valid_id(f, s),
+        None => true,
+    }
+}
+
+pub proof fn lemma_kids_sub(f: &Fsm, ga: &GlobalData, gb: &GlobalData)
+    requires
+        kids_ok(f, ga),
+        gb.child_sessions@.submap_of(ga.child_sessions@),
+    ensures
+        kids_ok(f, gb),
+{
+    assert forall|k: String| gb.child_sessions@.contains_key(k) implies match (#[trigger] gb.child_sessions@[k]).state_id {
+        Some(s) => valid_id(f, s),
+        None => true,
+    } by {
+        assert(ga.child_sessions@.contains_key(k));
+        assert(ga.child_sessions@[k] == gb.child_sessions@[k]);
+    }
+}
+
+pub proof fn lemma_remove_conflicts_valid(f: &Fsm, g: &GlobalData, en: Seq<u32>, k: int)
+    requires
+        all_valid_tr(f, en),
+        0 <= k <= en.len(),
+    ensures
+        all_valid_tr(f, remove_conflicts_k(f, g, en, k)),
+    decreases k,
+{
+    if k > 0 {
+        lemma_remove_conflicts_valid(f, g, en, k - 1);
+        lemma_conflict_step_valid(f, g, remove_conflicts_k(f, g, en, k - 1), en[k - 1]);
+    }
+}
+
+/// the full interpreter-loop invariant
+pub open spec fn loop_inv(f0: &Fsm, f: &Fsm, g: &GlobalData) -> bool {
+    &&& same_doc(f0, f)
+    &&& sess_wf(f, g)
+    &&& ids_consistent(g)
+    &&& kids_ok(f, g)
 }
